@@ -132,3 +132,131 @@ def model_req(ds, preq, simple, ureq, K=1, dist=None, y_train=None, y_test=None)
     D = ds["dist"] if dist is None else dist
     return {"op": "neighbor", "prov": preq, "simple": simple, "yTrain": ds["y_train"] if y_train is None else y_train,
             "yTest": ds["y_test"] if y_test is None else y_test, "dist": [[str(Fraction(float(x))) for x in row] for row in np.asarray(D).tolist()], "K": K, **ureq}
+
+
+# ---- explicit single-literal groupings with units that own NO row, and in-unit distance ties: additive helpers for C06 / C07 -------------------
+
+def rand_groups_empty(rng, n_rows, n_units, where=None):
+    """row -> unit of an explicit (non-simple) single-literal map/fork grouping over n_units >= 2 units in which some units own NO training row
+    (`Provenance(units=n_units, data=groups)`; as after filtering rows out of a provenance that keeps its unit set).  where: the positions of the
+    empty units - 'trailing' (the last k units), 'leading' (the first k), 'middle' (k units strictly inside), 'mixed' (a random subset, mostly
+    including the last unit).  Every other unit owns at least one row when n_rows allows; the rows are stored sorted by unit or shuffled.
+    Returns (groups, sorted list of the empty units, where)."""
+    where = rng.choice(["trailing", "leading", "middle", "mixed"]) if where is None else where
+    if where == "middle" and n_units < 3:
+        where = "trailing"
+    k = rng.randint(1, max(1, min(n_units - 1, max(1, n_units // 3))))
+    if where == "trailing":
+        empties = list(range(n_units - k, n_units))
+    elif where == "leading":
+        empties = list(range(k))
+    elif where == "middle":
+        k = min(k, n_units - 2)
+        if rng.random() < 0.5:
+            s = rng.randint(1, n_units - 1 - k)
+            empties = list(range(s, s + k))                     # one block
+        else:
+            empties = sorted(rng.sample(range(1, n_units - 1), k))
+    else:
+        empties = set(rng.sample(range(n_units), k))
+        if rng.random() < 0.6:
+            if len(empties) == n_units - 1 and (n_units - 1) not in empties:
+                empties.pop()
+            empties.add(n_units - 1)
+        empties = sorted(empties)
+    owners = [u for u in range(n_units) if u not in set(empties)]
+    groups = [rng.choice(owners) for _ in range(n_rows)]
+    slots = rng.sample(range(n_rows), min(n_rows, len(owners)))
+    for s, u in zip(slots, owners):
+        groups[s] = u
+    if rng.random() < 0.5:
+        groups.sort()
+    empties = [u for u in range(n_units) if u not in set(groups)]      # (with fewer rows than owners, further units are empty)
+    return groups, empties, where
+
+
+def empty_units_prov(I, rng, groups, n_units, form="explicit"):
+    """the real Provenance of such a grouping.  'explicit': Provenance(units=n_units, data=groups).  'filtered': a provenance over the same units
+    that also held rows of the now-empty units (and further rows of the others), filtered down to `groups` with provenance[boolean mask]."""
+    P = I["provenance"].Provenance
+    if form == "explicit":
+        return P(units=n_units, data=list(groups))
+    owned = set(groups)
+    extra = [u for u in range(n_units) if u not in owned for _ in range(rng.choice([1, 1, 2]))] + [rng.randrange(n_units) for _ in range(rng.randint(0, 2))]
+    tagged = [(g, True) for g in groups]
+    for u in extra:
+        tagged.insert(rng.randint(0, len(tagged)), (u, False))
+    full = P(units=n_units, data=[g for g, _ in tagged])
+    return full[np.array([keep for _, keep in tagged], dtype=bool)]
+
+
+def rand_in_unit_tie_dataset(rng, max_units=6, max_points=5, classes_max=4):
+    """grouped dataset (explicit map/fork grouping, K=1) whose distances are small integers WITH exact ties, and in which surely some unit owns two rows
+    with DIFFERENT labels that are exactly equidistant from some validation point and are that unit's nearest rows to it.  Distances either as a recorded
+    matrix or - kind 'features' - as small-integer feature vectors (1-2 dimensions; the second tied row is the mirror image of the first one about the
+    validation point, so the default Euclidean distance ties exactly).  The grouping may have units that own no row (see rand_groups_empty).
+    Returns dict(n_units, n_rows, m, groups, empties, y_train, y_test, classes, dist, X, Xv, kind, ties=[(unit, row1, row2, point)])."""
+    for _ in range(200):
+        n_own = rng.randint(2, max_units)
+        sizes = [rng.choice([1, 2, 2, 3]) for _ in range(n_own)]
+        if max(sizes) < 2:
+            sizes[rng.randrange(n_own)] = 2
+        n_empty = rng.choice([0, 0, 1, 2])
+        n_units = n_own + n_empty
+        pos = sorted(rng.sample(range(n_units), n_own))          # the positions of the units that own rows; the others are empty (anywhere)
+        empties = [u for u in range(n_units) if u not in set(pos)]
+        groups = [pos[k] for k in range(n_own) for _ in range(sizes[k])]
+        rng.shuffle(groups)
+        n_rows = len(groups)
+        c = rng.randint(2, classes_max)
+        m = rng.randint(1, max_points)
+        pool = sorted(rng.sample(range(0, 40), c))
+        y_train = [rng.choice(pool) for _ in range(n_rows)]
+        kind = rng.choice(["matrix", "matrix", "features"])
+        if kind == "matrix":
+            X = Xv = None
+            D = [[rng.randint(1, 6) for _ in range(m)] for _ in range(n_rows)]
+        else:
+            d = rng.randint(1, 2)
+            X = [[rng.randint(-6, 6) for _ in range(d)] for _ in range(n_rows)]
+            Xv = [[rng.randint(-4, 4) for _ in range(d)] for _ in range(m)]
+        ties = []
+        multi = [u for u in pos if groups.count(u) >= 2]
+        used_rows = set()
+        for u in rng.sample(multi, min(len(multi), rng.randint(1, 2))):
+            rows_u = [r for r in range(n_rows) if groups[r] == u]
+            j = rng.randrange(m)
+            if kind == "matrix":
+                r1, r2 = rng.sample(rows_u, 2)
+                D[r1][j] = D[r2][j] = min(D[r][j] for r in rows_u)
+            else:
+                def d2(r):
+                    return sum((a - b) ** 2 for a, b in zip(X[r], Xv[j]))
+                r1 = min(rows_u, key=lambda r: (d2(r), r))
+                r2 = rng.choice([r for r in rows_u if r != r1])
+                if r2 in used_rows or r1 in used_rows:
+                    continue
+                X[r2] = [2 * b - a for a, b in zip(X[r1], Xv[j])]          # the mirror image: exactly as far from point j as row r1
+                if X[r2] == X[r1]:
+                    X[r1] = [X[r1][0] + 1] + X[r1][1:]
+                    X[r2] = [2 * b - a for a, b in zip(X[r1], Xv[j])]
+            used_rows.update([r1, r2])
+            if y_train[r1] == y_train[r2]:
+                y_train[r2] = rng.choice([cl for cl in pool if cl != y_train[r1]])
+            ties.append((u, r1, r2, j))
+        classes = sorted(set(y_train))
+        if len(classes) < 2 or not ties:
+            continue
+        y_test = [rng.choice(classes) for _ in range(m)]
+        for (u, r1, r2, j) in ties:
+            if rng.random() < 0.8:
+                y_test[j] = y_train[rng.choice([r1, r2])]          # the tie decides whether the unit is right about point j
+        if kind == "features":
+            D = [[float(np.sqrt(sum((a - b) ** 2 for a, b in zip(X[r], Xv[j])))) for j in range(m)] for r in range(n_rows)]
+            # (for the record only: the run itself uses the library's default distance on X / Xv)
+            ok = all(sum((a - b) ** 2 for a, b in zip(X[r1], Xv[j])) == sum((a - b) ** 2 for a, b in zip(X[r2], Xv[j])) for (_u, r1, r2, j) in ties)
+            if not ok:
+                continue
+        return dict(n_units=n_units, n_rows=n_rows, m=m, groups=groups, empties=empties, y_train=y_train, y_test=y_test, classes=classes,
+                    dist=np.array(D, dtype=float), X=X, Xv=Xv, kind=kind, ties=ties)
+    raise RuntimeError("rand_in_unit_tie_dataset: no dataset")
